@@ -11,11 +11,11 @@ Never commits anything in /repo.
 import json, os, re, shutil, subprocess, sys
 
 ARGS = [a for a in sys.argv[1:] if not a.startswith("--")]
-ROUND = 2 if "--round2" in sys.argv else 1
+ROUND = 3 if "--round3" in sys.argv else (2 if "--round2" in sys.argv else 1)
 ID = ARGS[0]
 EXTRA = ARGS[1:]
-BASE = "/tmp/wt2" if ROUND == 2 else "/tmp/wt"
-OFFSET = 3 if ROUND == 2 else 0
+BASE = {1: "/tmp/wt", 2: "/tmp/wt2", 3: "/tmp/wt3"}[ROUND]
+OFFSET = 3 * (ROUND - 1)
 WT = f"{BASE}/{ID}"
 OUT = f"{BASE}/{ID}-out"
 ENV = dict(os.environ, CARGO_NET_OFFLINE="true")
